@@ -5,7 +5,8 @@ From ONL Require Import Elem.Packet Elem.StoreQ Elem.SchedBase.
 Import ListNotations.
 
 Definition rr_cfg (r : Q) (fl : list Z) : mq_cfg :=
-  {| rate := r; pass := map (fun f => (f, 1%nat)) fl; by_count := true; brk := false |}.
+  {| rate := r; pass := map (fun f => (f, 1%nat)) fl; by_count := true; brk := false;
+     cls := fun f => f; sflows := nodup Z.eq_dec fl |}.
 
 Definition rr_act (r : Q) (fl : list Z) := mq_act (rr_cfg r fl).
 Definition rr_run (r : Q) (fl : list Z) (acts : list saction) := mq_run (rr_cfg r fl) (mq0 (rr_cfg r fl)) acts.
